@@ -493,6 +493,10 @@ def obligations(tier, seed):
     specs.append(spec(MOD, 'RestoreLinkedTile', 'twin/RestoreLinkedTile', kind='witness', cfg=dict(link='symlink', op='store_tile')))
     for label, h, patches, c in (CANARIES if tier == 'thorough' else CANARIES[:3] + CANARIES[4:]):   # (quick skips one)
         specs.append(spec(MOD, h, 'canary/' + label, kind='canary', cfg=c, patches=patches, cost=5))
+    # a failed refresh must not destroy the old tile: an upstream answer marked not cacheable (error fill image) is never written
+    # over it -- single, meta and bulk path (the C20 harness)
+    for mode in ('single', 'meta', 'bulk'):
+        specs.append(spec('props.C20_conditional', 'Uncacheable', 'failed-refresh-keeps-the-old-tile/%s' % mode, cfg=dict(mode=mode), cost=2))
     # sqlite / mbtiles-with-timestamps: the time a tile was stored reads back as that time and the ttl filter hides exactly the older
     # tiles, whatever the UTC offset of the host (SQLite keeps local-time strings; E2 with the offset as a solver variable)
     from props import sqltime
